@@ -39,7 +39,16 @@ def add_population(run):
     run.assumptions.append("prepare() population: defaultdict(list), sorted(), frozenset(), dict() are stubs (a table of lists by key; the sorted ranges are "
                            "the ranges); decode_address by its own contract (the hash lemma); the induction 'balanced at the end => every iteration "
                            "recorded' is on paper (balanced is only ever assigned False inside the loops: clause per iteration)")
-    discharge_all(run, fv.obs, timeout_ms=20000)
+    obs = list(fv.obs)
+    try:
+        fa = c.verify_chunk_access()
+        run.functions["amaranth_soc." + fa.qualname] = f"proved ({fa.paths} paths, {len(fa.obs)} obligations): elaborate() sees exactly the chunks and register lists prepare() built"
+        run.require("csr.bus.Multiplexer._Shadow.chunks / Chunk.__init__ / Chunk.registers::chunks():each-item-yielded-once-as-(offset, chunk)",
+                    "csr.bus.Multiplexer._Shadow.chunks / Chunk.__init__ / Chunk.registers::Chunk.registers():yields-from-exactly-the-kept-tuple")
+        obs += fa.obs
+    except Unsupported as e:
+        run.bounded_notes.append(f"chunk accessors: outside the subset on this tree ({e}); L2 layouts decide")
+    discharge_all(run, obs, timeout_ms=20000)
 
 
 def add_termination(run):
